@@ -8,4 +8,5 @@ mkdir -p work harness/bin evidence replays
 cp /repo/go.sum harness/go.sum
 (cd harness && go build -tags verif -o bin/rrharness ./cmd/rrharness)
 harness/bin/rrharness extract -repo /repo -out lean/RrModel/Generated/Facts.lean
+python3 gen_driver.py
 (cd lean && lake build)
